@@ -3,6 +3,7 @@ package checks
 import (
 	"fmt"
 	"github.com/cybergarage/go-redis/redis"
+	"github.com/cybergarage/go-redis/redis/auth"
 	"github.com/cybergarage/go-tracing/tracer"
 	"testing"
 
@@ -90,6 +91,14 @@ func runC20(t *testing.T, tape *sim.Tape, tier string) *Outcome {
 	endMode := tape.Draw(6, "endmode") // 0 FIN at end, 1 FIN at boundary, 2 FIN inside, 3 RST, 4 corrupt frame, 5 client gone before reading
 	g := &wl.Gen{T: tape, Binary: cfg.Binary, CaseVary: cfg.CaseVary}
 	var reqs []*wl.Req
+	if withPw && tape.Draw(16, "authburst") == 15 {
+		// password guessing: a burst of 10..14 refused AUTH commands in front of the pipeline
+		for i := 10 + tape.Draw(5, "authburstlen"); i > 0; i-- {
+			a := []string{"AUTH", fmt.Sprintf("guess%d", i)}
+			reqs = append(reqs, &wl.Req{Idx: len(reqs), Name: "AUTH", Args: a, Bytes: resp.Cmd(a...), Class: "valid", Mode: wl.System, SelectDB: -1})
+		}
+		o.stat("bursts_of_refused_auth", 1)
+	}
 	for i := 0; i < cfg.N; i++ {
 		if i == cfg.QuitAt {
 			g.Only = []string{"QUIT"}
@@ -125,6 +134,8 @@ func runC20(t *testing.T, tape *sim.Tape, tier string) *Outcome {
 	c.setReqs(reqs)
 	if withPw {
 		c.Srv.SetRequirePass("pw")
+		// (the connection loop is driven without Start(), which is what registers the password's authenticator)
+		c.Srv.AddAuthenticator(auth.NewClearTextPasswordAuthenticatorWith("", "pw"))
 	}
 	tr := &wl.RecTracer{}
 	mon := &spanMonitor{tr: tr, o: o, ctx: func() string {
@@ -315,7 +326,7 @@ func init() {
 	register(&Check{
 		ID: "C20", Bubble: true, Run: runC20,
 		Runs:   map[string]int{"quick": 40000, "thorough": 1500000},
-		Rule:   "a case is one (pipeline, stream-end fault, delivery schedule) triple: pipelines as in C03 plus values that are not command arrays (empty, null and nested arrays, null or non-bulk command names, non-array values) (every command, valid/ill-formed/unknown, QUIT, AUTH, unauthorized state with a required password, injected handler errors) x {FIN after the last request, FIN at a request boundary, FIN inside a request, RST, corrupted frame, client gone before reading so that reply writes fail} x optionally Server.Stop() while a command is executing x optionally a busy command lock at drawn acquisitions (phantom holder released once the connection waits for it) x optionally the tracer removed or replaced by the application at a moment when every request sent so far has been answered (a request belongs to the tracer installed when it began) x seeded chunking/batching; the span-nesting invariant is evaluated at every tracer, handler and reply-write event; distinct = distinct (config, end mode, cut, chunk sequence) signatures; non-trivial = stream-end fault or chunked delivery",
+		Rule:   "a case is one (pipeline, stream-end fault, delivery schedule) triple: pipelines as in C03 plus values that are not command arrays (empty, null and nested arrays, null or non-bulk command names, non-array values) (every command, valid/ill-formed/unknown, QUIT, AUTH, unauthorized state with a required password, injected handler errors) x {FIN after the last request, FIN at a request boundary, FIN inside a request, RST, corrupted frame, client gone before reading so that reply writes fail} x optionally Server.Stop() while a command is executing x optionally a busy command lock at drawn acquisitions (phantom holder released once the connection waits for it) x optionally the tracer removed or replaced by the application at a moment when every request sent so far has been answered (a request belongs to the tracer installed when it began) x optionally a burst of 10..14 refused AUTH commands in front of the pipeline x seeded chunking/batching; the span-nesting invariant is evaluated at every tracer, handler and reply-write event; distinct = distinct (config, end mode, cut, chunk sequence) signatures; non-trivial = stream-end fault or chunked delivery",
 		Real:   []string{"redis.Server connection loop and dispatch with a tracer installed", "go-tracing span stack (tracer/common)"},
 		Stub:   []string{"tracer: recording tracer.Tracer/Span double", "transport: simulated net.Conn", "handler: recording double"},
 		Assume: []string{"the loop's extra iteration that meets end of stream may open and close a root span of its own"},
